@@ -190,57 +190,146 @@ func checkC04(c *Ctx) {
 			c.ob("C04.R2", f.Name+"/disabled", w.Pos(optLit.Pos()), false, "Disabled is not a local computed in the loop")
 		} else {
 			dobj := info.Uses[did]
-			e := w.ent(f)
 			opt := x.str(loop.X) + "[range]"
 			cond := opt + ".LineStatement.Condition"
-			okInit, okNeg, okGuard := false, false, false
-			why := ""
-			for _, a := range e.assigns[dobj] {
-				as, ok := a.(*ast.AssignStmt)
-				if !ok || len(as.Rhs) != 1 {
-					why = "unrecognised assignment to the disabled flag"
-					continue
+			// path rule: where the literal is built, the flag holds false if the condition is nil and the negation of the
+			// evaluated condition's boolean otherwise
+			classify := func(rhs ast.Expr) string {
+				if rhs == nil {
+					return "F" // var disabled bool
 				}
-				if tv, ok := info.Types[as.Rhs[0]]; ok && tv.Value != nil {
+				if tv, ok := info.Types[rhs]; ok && tv.Value != nil {
 					if tv.Value.ExactString() == "false" {
-						okInit = true
-					} else {
-						why = "the disabled flag is set to the constant true"
+						return "F"
 					}
-					continue
+					return "X:the disabled flag is set to the constant true"
 				}
-				u, ok := unparen(as.Rhs[0]).(*ast.UnaryExpr)
+				u, ok := unparen(rhs).(*ast.UnaryExpr)
 				if !ok || u.Op != token.NOT {
-					why = "the disabled flag is assigned " + x.str(as.Rhs[0]) + ", not the negation of the condition's boolean"
-					continue
+					return "X:the disabled flag is assigned " + shorten(x.str(rhs), 80) + ", not the negation of the condition's boolean"
 				}
 				se, ok := unparen(u.X).(*ast.StarExpr)
 				if !ok {
-					why = "the disabled flag is not the negation of a dereferenced boolean"
-					continue
+					return "X:the disabled flag is not the negation of a dereferenced boolean"
 				}
-				s := x.str(se.X)
-				if strings.Contains(s, "evaluateExpression("+cond+",") && strings.HasSuffix(s, "#0.Boolean") {
-					okNeg = true
-				} else {
-					why = "the disabled flag negates " + s + ", not the boolean of the option's evaluated condition"
+				sv := x.str(se.X)
+				if strings.Contains(sv, "evaluateExpression("+cond+",") && strings.HasSuffix(sv, "#0.Boolean") {
+					return "N"
 				}
-				// inside `if <cond> != nil`
-				for p := w.parent[ast.Node(as)]; p != nil && p != ast.Node(loop); p = w.parent[p] {
-					if is, ok := p.(*ast.IfStmt); ok {
-						if b, ok := unparen(is.Cond).(*ast.BinaryExpr); ok && b.Op == token.NEQ && isNilExpr(info, b.Y) && x.str(b.X) == cond {
-							okGuard = true
+				return "X:the disabled flag negates " + shorten(sv, 80) + ", not the boolean of the option's evaluated condition"
+			}
+			r2 := evtRule{
+				start: "?|none",
+				prim: func(n ast.Node) []string {
+					switch n := n.(type) {
+					case *ast.AssignStmt:
+						for i, l := range n.Lhs {
+							if id := identOf(l); id != nil && (info.Uses[id] == dobj || info.Defs[id] == dobj) {
+								if len(n.Rhs) != len(n.Lhs) {
+									return []string{"X:unrecognised assignment to the disabled flag"}
+								}
+								return []string{classify(n.Rhs[i])}
+							}
+						}
+					case *ast.ValueSpec:
+						for i, nm := range n.Names {
+							if info.Defs[nm] == dobj {
+								if i < len(n.Values) {
+									return []string{classify(n.Values[i])}
+								}
+								return []string{classify(nil)}
+							}
+						}
+					case *ast.CallExpr:
+						if optLit.Pos() >= n.Pos() && optLit.End() <= n.End() && isBuiltin(info, n, "append") {
+							return []string{"USE"}
+						}
+					case *ast.UnaryExpr:
+						if n.Op == token.AND && dobj != nil {
+							if id := identOf(n.X); id != nil && info.Uses[id] == dobj {
+								return []string{"X:the address of the disabled flag is taken"}
+							}
+						}
+					case *pseudo:
+						if n.stmt == ast.Node(loop) && (n.kind == "ENTERLOOP" || n.kind == "BACKEDGE") {
+							return []string{"RESET"}
 						}
 					}
+					return nil
+				},
+				edge: func(ei edgeInfo) []string {
+					b, ok := unparen(ei.Cond).(*ast.BinaryExpr)
+					if !ok || ei.Tag != nil || (b.Op != token.NEQ && b.Op != token.EQL) {
+						return nil
+					}
+					var other ast.Expr
+					if isNilExpr(info, b.Y) {
+						other = b.X
+					} else if isNilExpr(info, b.X) {
+						other = b.Y
+					}
+					if other == nil || x.str(other) != cond {
+						return nil
+					}
+					if (b.Op == token.NEQ) == ei.Branch {
+						return []string{"NN"}
+					}
+					return []string{"NIL"}
+				},
+				step: func(st, ev string) string {
+					if st == "dead" {
+						return ""
+					}
+					k, l := st[:strings.Index(st, "|")], st[strings.Index(st, "|")+1:]
+					switch {
+					case ev == "RESET":
+						return "?|none"
+					case ev == "NN":
+						if k == "nil" {
+							return "dead"
+						}
+						return "nn|" + l
+					case ev == "NIL":
+						if k == "nn" {
+							return "dead"
+						}
+						return "nil|" + l
+					case ev == "F" || ev == "N" || strings.HasPrefix(ev, "X:"):
+						return k + "|" + ev
+					}
+					return ""
+				},
+				bad: func(st, ev string) string {
+					if ev != "USE" || st == "dead" {
+						return ""
+					}
+					k, l := st[:strings.Index(st, "|")], st[strings.Index(st, "|")+1:]
+					switch {
+					case strings.HasPrefix(l, "X:"):
+						return strings.TrimPrefix(l, "X:")
+					case l == "none":
+						return "the disabled flag is read before it is set"
+					case k == "nn" && l != "N":
+						return "an option whose condition is present can be listed with Disabled = false without the condition being consulted"
+					case k == "nil" && l != "F":
+						return "an option without a condition gets a Disabled value that is not the constant false"
+					case k == "?" && l == "F":
+						return "a path reaches the option entry with Disabled = false although the option's condition was never tested for presence"
+					}
+					return ""
+				},
+			}
+			fs2 := runEVT(w, f, r2)
+			seen2 := map[string]bool{}
+			for _, fd := range fs2 {
+				if !seen2[fd.msg] {
+					seen2[fd.msg] = true
+					c.ob("C04.R2", f.Name+"/disabled#"+itoa(len(seen2)), w.Pos(fd.pos), false, fd.msg)
 				}
 			}
-			all := okInit && okNeg && okGuard
-			if all {
-				why = "false by default; under `Condition != nil` the negation of the evaluated condition's boolean"
-			} else if why == "" {
-				why = "the disabled flag is not (false without condition, negated condition otherwise)"
+			if len(seen2) == 0 {
+				c.ob("C04.R2", f.Name+"/disabled", w.Pos(optLit.Pos()), true, "on every path to the option entry: false when the option has no condition, the negation of the evaluated condition's boolean when it has one")
 			}
-			c.ob("C04.R2", f.Name+"/disabled", w.Pos(optLit.Pos()), all, why)
 		}
 		// the option's text and tags come from the option being visited
 		lv := litField(optLit, "Line")
